@@ -137,3 +137,63 @@ def _loop_bounded(f, ix, at):
             if il.c == -1 and len(il.t) == 1 and list(il.t.keys())[0].endswith("set_core.n_start_sits]") and list(il.t.values()) == [1]:
                 return True
     return False
+
+
+def rule_R21_dedupe(ctx, rep, config="c-lib"):
+    rep.rule("R21-dedupe", "when a situation is added to the set being formed, the duplicate test compares (situation, distance): a loop that compares the situation "
+                           "only may range over one distance class only -- the zero-distance situations start at n_all_dists; a loop that starts at the first non-start "
+                           "situation also compares parent_indexes (the distance of the derived ones)")
+    p = ctx.prog(config)
+    n = 0
+    for fn in ("set_add_new_nonstart_sit", "set_new_add_initial_sit"):
+        f = p.fn(fn)
+        rep.cover(p, [fn])
+        found = False
+        for L in f.loops():
+            hdr = f.bmap[L["header"]]
+            phis = [i for i in hdr.insts if i.op == "phi"]
+            if len(phis) != 1:
+                continue
+            ind = phis[0]
+            inits = [v for (v, pb) in ind.d["incoming"] if pb not in L["body"]]
+            if len(inits) != 1:
+                continue
+            # what the body compares
+            cmp_sit = cmp_parent = False
+            for bn in L["body"]:
+                for c in f.bmap[bn].insts:
+                    if c.op != "icmp" or c.d["pred"] not in ("eq", "ne"):
+                        continue
+                    for o in c.ops:
+                        l_ = f.inst(strip_int_casts(f, o))
+                        if l_ is None or l_.op != "load":
+                            continue
+                        pa = resolve_addr(f, l_.ops[0])
+                        if pa.root[0] != "val" or not pa.steps or pa.steps[-1][0] not in ("idx", "ptr"):
+                            continue
+                        b = loaded_from(f, pa.root[1])
+                        if b is None:
+                            continue
+                        if b.root == ("g", "new_sits") and not b.steps:
+                            cmp_sit = True
+                        if b.last_field() == "set_core.parent_indexes":
+                            cmp_parent = True
+            if not cmp_sit:
+                continue
+            found = True
+            n += 1
+            ib = loaded_from(f, inits[0])
+            lower = "n_all_dists" if (ib is not None and ib.last_field() == "set_core.n_all_dists") else \
+                    ("n_start_sits" if (ib is not None and (ib.root == ("g", "new_n_start_sits") or ib.last_field() == "set_core.n_start_sits")) else "other")
+            key = "%s/duplicate-test" % fn
+            if cmp_parent and lower in ("n_start_sits", "n_all_dists"):
+                rep.ok("R21-dedupe", key, sample={"loop_from": lower, "compares": "situation and parent index"})
+            elif not cmp_parent and lower == "n_all_dists":
+                rep.ok("R21-dedupe", key, sample={"loop_from": lower, "compares": "situation (zero-distance class)"})
+            else:
+                rep.violation("R21-dedupe", key, "%s looks for an equal situation from %s on but does not compare the distance: a situation that is already in the set as a "
+                              "derived situation with the distance of its parent suppresses the same situation with distance 0 (origin here) -- that item is lost and "
+                              "sentences that need it are rejected" % (fn, lower), where=hdr.term.where(), witness=[hdr.term.where()])
+        if not found:
+            raise AnalysisBroken("R21-dedupe: duplicate test loop of %s not found" % fn)
+    rep.floor("R21-dedupe", "duplicate tests of added situations", n, 2)
